@@ -324,6 +324,9 @@ func readCrud(src string) (funs []crudFun, scans map[string][]string, scanOrder 
 			}
 			recv := types.ExprString(sel.X)
 			switch {
+			case sel.Sel.Name == "Exec" && recv == "db" && fd.Recv == nil && len(call.Args) >= 1:
+				// a top-level function running db.Exec is a custom query (gomacro:QUERY): decided by C16
+				return true
 			case (sel.Sel.Name == "Query" || sel.Sel.Name == "QueryRow" || sel.Sel.Name == "Exec") && (recv == "tx" || recv == "db") && len(call.Args) >= 1:
 				sql, ok := stringLit(call.Args[0])
 				f := crudFun{Name: name, SQL: sql}
@@ -414,6 +417,10 @@ func runC05(e *env) {
 		"one evaluation = one generated function; non-trivial = function with a WHERE clause or a column list"
 	e.m.Extra = map[string]interface{}{"mismatch_means": "model"}
 	specs := corpusCrud()
+	for _, m := range repoFixtures("repo-sql-models") {
+		m.Class = "update-single-column-row" // its Progression table has one column beside the id
+		specs = append(specs, m)
+	}
 	n := 14
 	if e.thorough() {
 		n = 300
@@ -476,10 +483,20 @@ func runC05(e *env) {
 			sitems = append(sitems, fmt.Sprintf("(%s, %s)", coqStr(t), coqStrList(scans[t])))
 		}
 		e.m.sample(map[string]interface{}{"module": spec.Name, "functions": len(funs), "tables": len(order)})
-		cases = append(cases, fmt.Sprintf("{| c5_prog := %s;\n c5_enums := %s;\n c5_ana := %s;\n c5_tables := %s;\n c5_funs := %s;\n c5_scans := %s;\n c5_schema := %s |}",
-			o.Facts, o.Enums, o.Ana, gt.Text, coqListNL(fitems), coqList(sitems), coqSchema(gs.Text)))
-		inputs = append(inputs, map[string]interface{}{"module": spec, "crud": gc.Text, "sql": gs.Text, "class": spec.Class})
-		if len(cases) == 3 {
+		mkCase := func(mode int) string {
+			return fmt.Sprintf("{| c5_prog := %s;\n c5_enums := %s;\n c5_ana := %s;\n c5_tables := %s;\n c5_funs := %s;\n c5_scans := %s;\n c5_schema := %s;\n c5_mode := %d |}",
+				o.Facts, o.Enums, o.Ana, gt.Text, coqListNL(fitems), coqList(sitems), coqSchema(gs.Text), mode)
+		}
+		if spec.Class == "" {
+			cases = append(cases, mkCase(0))
+			inputs = append(inputs, map[string]interface{}{"module": spec, "crud": gc.Text, "sql": gs.Text, "class": ""})
+		} else {
+			// evaluated twice: everything but the recorded finding (no class: reported), then the finding alone (class: known)
+			cases = append(cases, mkCase(1), mkCase(2))
+			inputs = append(inputs, map[string]interface{}{"module": spec, "crud": gc.Text, "sql": gs.Text, "class": ""},
+				map[string]interface{}{"module": spec, "crud": gc.Text, "sql": gs.Text, "class": spec.Class})
+		}
+		if len(cases) >= 3 {
 			flush()
 		}
 	}
